@@ -288,6 +288,25 @@ receiveLoop:
 	return nil
 }
 
+// produceUnmatched sends a record which has no match on the other side.
+// If the record's side is an outer side of the join, it's sent with nulls on the other side.
+func (s *OuterJoin) produceUnmatched(ctx ExecutionContext, produce ProduceFn, amLeft bool, record Record) error {
+	if s.isOuterLeft && amLeft {
+		outputValues := make([]octosql.Value, s.leftFieldCount+s.rightFieldCount)
+		copy(outputValues, record.Values)
+		if err := produce(ProduceFromExecutionContext(ctx), NewRecord(outputValues, record.Retraction, record.EventTime)); err != nil {
+			return fmt.Errorf("couldn't produce: %w", err)
+		}
+	} else if s.isOuterRight && !amLeft {
+		outputValues := make([]octosql.Value, s.leftFieldCount+s.rightFieldCount)
+		copy(outputValues[s.leftFieldCount:], record.Values)
+		if err := produce(ProduceFromExecutionContext(ctx), NewRecord(outputValues, record.Retraction, record.EventTime)); err != nil {
+			return fmt.Errorf("couldn't produce: %w", err)
+		}
+	}
+	return nil
+}
+
 func (s *OuterJoin) receiveRecord(ctx ExecutionContext, produce ProduceFn, myRecords, otherRecords *tbtree.Generic[*streamJoinItem], amLeft bool, record Record) error {
 	ctx = ctx.WithRecord(record)
 
@@ -305,6 +324,12 @@ func (s *OuterJoin) receiveRecord(ctx ExecutionContext, produce ProduceFn, myRec
 			return fmt.Errorf("couldn't evaluate %d stream join key expression: %w", i, err)
 		}
 		key[i] = value
+	}
+	for i := range key {
+		if key[i].TypeID == octosql.TypeIDNull {
+			// The key comes from equality conditions, and NULL is never equal to anything, so this record can't match.
+			return s.produceUnmatched(ctx, produce, amLeft, record)
+		}
 	}
 
 	firstRecordForThatKeyOnThisSide := false
@@ -350,26 +375,7 @@ func (s *OuterJoin) receiveRecord(ctx ExecutionContext, produce ProduceFn, myRec
 		itemTyped, ok := otherRecords.Get(&streamJoinItem{GroupKey: key})
 
 		if !ok || itemTyped.values.Len() == 0 {
-			if s.isOuterLeft && amLeft {
-				// We're an outer join, so trigger record with nulls on other side.
-				outputValues := make([]octosql.Value, s.leftFieldCount+s.rightFieldCount)
-				copy(outputValues, record.Values)
-				if err := produce(ProduceFromExecutionContext(ctx), NewRecord(outputValues, record.Retraction, record.EventTime)); err != nil {
-					return fmt.Errorf("couldn't produce: %w", err)
-				}
-				return nil
-			} else if s.isOuterRight && !amLeft {
-				// We're an outer join, so trigger record with nulls on other side.
-				outputValues := make([]octosql.Value, s.leftFieldCount+s.rightFieldCount)
-				copy(outputValues[s.leftFieldCount:], record.Values)
-				if err := produce(ProduceFromExecutionContext(ctx), NewRecord(outputValues, record.Retraction, record.EventTime)); err != nil {
-					return fmt.Errorf("couldn't produce: %w", err)
-				}
-				return nil
-			} else {
-				// Nothing to trigger
-				return nil
-			}
+			return s.produceUnmatched(ctx, produce, amLeft, record)
 		}
 
 		if firstRecordForThatKeyOnThisSide && ((s.isOuterLeft && !amLeft) || (s.isOuterRight && amLeft)) {
